@@ -158,6 +158,7 @@ VERUS_UNITS = [
     VU("V-def-bits", ["C02", "C10", "C12"], ["OutputBufferOxide::put_bits", "OutputBufferOxide::pad_to_bytes"]),
     VU("V-pushdict", ["C05", "C13"], ["push_dict_out"]),
     VU("V-def-lz", ["C02", "C10"], ["LZOxide::write_code", "LZOxide::plant_flag", "LZOxide::consume_flag"]),
+    VU("V-flushout", ["C02", "C14"], ["CallbackBuf::flush_output"]),
     VU("V-inf-leaf", ["C04", "C06", "C07", "C19"], ["undo_bytes", "num_extra_bits_for_distance_code"]),
 ]
 
